@@ -55,6 +55,9 @@ type Program struct {
 	labels map[string]int // label -> instruction index
 	lits   map[Src]int32
 	err    error
+	// Gfx9 switches memory and wait-count instructions to the GFX9/CDNA3
+	// forms (global_* with SADDR off, wide vmcnt field).
+	Gfx9 bool
 }
 
 // New creates an empty program.
@@ -148,6 +151,13 @@ func (p *Program) SNop(n uint32) { p.sopp(0, "s_nop", n) }
 // SWaitcnt waits until the counters are at or below the given values
 // (vmcnt 0..15, lgkmcnt 0..15; pass 15 for "do not wait").
 func (p *Program) SWaitcnt(vmcnt, lgkmcnt uint32) {
+	if p.Gfx9 {
+		if vmcnt == 15 {
+			vmcnt = 63 // "do not wait" in the wider GFX9 field
+		}
+		p.SWaitcntGfx9(vmcnt, lgkmcnt)
+		return
+	}
 	p.sopp(12, "s_waitcnt", vmcnt&0xf|7<<4|(lgkmcnt&0xf)<<8)
 }
 
@@ -325,11 +335,19 @@ func (p *Program) VLshlrevB64(vdst int, s0, s1 Src) { p.vop3a(655, "v_lshlrev_b6
 
 // FlatLoadDword : v[vdst] = mem[v[addr:addr+1]].
 func (p *Program) FlatLoadDword(vdst, addr int) {
+	if p.Gfx9 {
+		p.GlobalLoadDword(vdst, addr)
+		return
+	}
 	p.emit(fmt.Sprintf("flat_load_dword v%d", vdst), 0xDC000000|20<<18, uint32(vdst)<<24|uint32(addr))
 }
 
 // FlatLoad : a FLAT load with the given opcode (16 ubyte, 17 sbyte, 18 ushort, 20 dword, 21 dwordx2, 23 dwordx4).
 func (p *Program) FlatLoad(op uint32, vdst, addr int) {
+	if p.Gfx9 {
+		p.globalLoad(op, vdst, addr)
+		return
+	}
 	name := map[uint32]string{16: "flat_load_ubyte", 17: "flat_load_sbyte", 18: "flat_load_ushort", 20: "flat_load_dword", 21: "flat_load_dwordx2", 23: "flat_load_dwordx4"}[op]
 	n := map[uint32]int{21: 2, 23: 4}[op]
 	dst := fmt.Sprintf("v%d", vdst)
@@ -341,12 +359,21 @@ func (p *Program) FlatLoad(op uint32, vdst, addr int) {
 
 // FlatStore : a FLAT store with the given opcode (28 dword, 29 dwordx2, 30 dwordx3, 31 dwordx4).
 func (p *Program) FlatStore(op uint32, addr, data int) {
+	if p.Gfx9 {
+		name := map[uint32]string{28: "global_store_dword", 29: "global_store_dwordx2", 30: "global_store_dwordx3", 31: "global_store_dwordx4"}[op]
+		p.emit(name+" v", 0xDC000000|op<<18|0x8000, 0x7f<<16|uint32(data)<<8|uint32(addr))
+		return
+	}
 	name := map[uint32]string{28: "flat_store_dword", 29: "flat_store_dwordx2", 30: "flat_store_dwordx3", 31: "flat_store_dwordx4"}[op]
 	p.emit(name+" v", 0xDC000000|op<<18, uint32(data)<<8|uint32(addr))
 }
 
 // FlatStoreDword : mem[v[addr:addr+1]] = v[data].
 func (p *Program) FlatStoreDword(addr, data int) {
+	if p.Gfx9 {
+		p.GlobalStoreDword(addr, data)
+		return
+	}
 	p.emit("flat_store_dword v", 0xDC000000|28<<18, uint32(data)<<8|uint32(addr))
 }
 
@@ -505,6 +532,16 @@ func (p *Program) VLshlAddU64(vdst int, s0, shift, s2 Src) {
 
 // VBfeU32 : vdst = (s0 >> s1) & ((1<<s2)-1).
 func (p *Program) VBfeU32(vdst int, s0, s1, s2 Src) { p.vop3a(0x1c8, "v_bfe_u32", vdst, s0, s1, s2) }
+
+func (p *Program) globalLoad(op uint32, vdst, addr int) {
+	name := map[uint32]string{16: "global_load_ubyte", 17: "global_load_sbyte", 18: "global_load_ushort", 20: "global_load_dword", 21: "global_load_dwordx2", 23: "global_load_dwordx4"}[op]
+	n := map[uint32]int{21: 2, 23: 4}[op]
+	dst := fmt.Sprintf("v%d", vdst)
+	if n > 1 {
+		dst = fmt.Sprintf("v[%d:%d]", vdst, vdst+n-1)
+	}
+	p.emit(fmt.Sprintf("%s %s", name, dst), 0xDC000000|op<<18|0x8000, uint32(vdst)<<24|0x7f<<16|uint32(addr))
+}
 
 // GlobalLoadDword : v[vdst] = mem[v[addr:addr+1]] (saddr off).
 func (p *Program) GlobalLoadDword(vdst, addr int) {
